@@ -70,3 +70,25 @@ package upstream
 //@   ensures[cap] f2i(rbShed(l, a, rate)) <= f2i(ceil(i2f(a) * rate))
 //@   ensures[not-nan] !isNaN(rbShed(l, a, rate))
 //@   ensures[nonneg] f2i(rbShed(l, a, rate)) >= 0
+
+// ---------------------------------------------------------------------------
+// The Manager and Upstream interfaces as their users see them (C01, C06, C15)
+
+//@ iface (Manager).Select
+//@   acquires 10
+//@   modifies-all $gSelected $gSelEndpoint $gSelAllow
+//@   ghost-set gSelected = true
+//@   ghost-set gSelEndpoint = endpointID
+//@   ghost-set gSelAllow = allowForward
+//@   ensures[same-endpoint] result1 ==> result0 != nil && result0.EndpointID() == endpointID
+//@   ensures[no-remote] !allowForward && result1 ==> !result0.Forward()
+//@ iface (Manager).RemoveConn
+//@   acquires 10
+//@   modifies-all $gRemoved
+//@   ghost-set gRemoved = true
+//@ iface (Manager).AddConn
+//@   acquires 10
+//@ iface (Upstream).Dial
+//@   modifies-all $gDialed $gDialedUpstream
+//@   ghost-set gDialed = true
+//@   ghost-set gDialedUpstream = self
